@@ -89,34 +89,34 @@ def findLookup (ls : List Lookup) (fn : String) : Lookup :=
   (ls.find? (·.fn == fn)).getD { fn := fn, map := "", key := "", hitErrNil := false, missErr := false, missValue := "" }
 
 /-- the four public lookups over a generated registry description -/
-structure Registry where
+structure Desc where
   regWrites : MapWrites
   modWrites : MapWrites
   lookups : List Lookup
   registered : List Reg
 
-def Registry.factory (g : Registry) : Factory := build g.regWrites g.modWrites g.registered
+def Desc.factory (g : Desc) : Factory := build g.regWrites g.modWrites g.registered
 
 /-- `ActivationNameFromType` -/
-def Registry.nameOfCode (g : Registry) (c : Nat) : Option String :=
+def Desc.nameOfCode (g : Desc) (c : Nat) : Option String :=
   match (findLookup g.lookups "ActivationNameFromType").run g.factory (.code c) with
   | .ok (.str s) => some s
   | _ => none
 
 /-- `ActivationTypeFromName` -/
-def Registry.codeOfName (g : Registry) (n : String) : Option Nat :=
+def Desc.codeOfName (g : Desc) (n : String) : Option Nat :=
   match (findLookup g.lookups "ActivationTypeFromName").run g.factory (.str n) with
   | .ok (.code c) => some c
   | _ => none
 
 /-- `ActivateByType`: identifier of the closure that is applied, `none` = error -/
-def Registry.scalarOfCode (g : Registry) (c : Nat) : Option String :=
+def Desc.scalarOfCode (g : Desc) (c : Nat) : Option String :=
   match (findLookup g.lookups "ActivateByType").run g.factory (.code c) with
   | .ok (.str s) => some s
   | _ => none
 
 /-- `ActivateModuleByType` -/
-def Registry.moduleOfCode (g : Registry) (c : Nat) : Option String :=
+def Desc.moduleOfCode (g : Desc) (c : Nat) : Option String :=
   match (findLookup g.lookups "ActivateModuleByType").run g.factory (.code c) with
   | .ok (.str s) => some s
   | _ => none
